@@ -10,6 +10,7 @@ scanned", so the model is a left-to-right function on the *body* of the literal 
   the bytes it emits, how many further bytes of `r` it consumes, and whether it wrote `\0`
   (Go: `nulEnd`; `an` = "this iteration starts right after a `\0`", Go: `afterNul`);
 * `rep q body` — the loop (`replaceEscapes(b, q, 1, 1)`): fuel = length, every iteration consumes ≥ 1 byte;
+* `escEnds` — the pass `escapeHTMLEnds` over the rewritten body;
 * `chooseQuote`, `minifyString` — the counting loop and the quote selection.
 
 Lookahead conditions of the Go code that may read the closing quote (`i+k < len(b)`) can never match it
@@ -153,6 +154,23 @@ def step (q : Nat) (an : Bool) (c : Nat) (r : List Nat) : Res :=
     else ([c], 0, false)
   else ([c], 0, false)
 
+/-- `parse.EqualFold(s, "script")` -/
+def foldScript6 (s : List Nat) : Bool :=
+  match s with
+  | [b, c, d, e, f, g] =>
+    foldEq b c%'s' && foldEq c c%'c' && foldEq d c%'r' && foldEq e c%'i' && foldEq f c%'p' && foldEq g c%'t'
+  | _ => false
+
+/-- `escapeHTMLEnds(b, 1, 1)` on the body of `b` (the pass at the end of `replaceEscapes`, a80add2): a backslash is
+    written after every `<` that is followed by `!--` or by `/script` (any letter case), however the text was formed.
+    The scan goes on behind the inserted backslash. -/
+def escEnds : List Nat → List Nat
+  | [] => []
+  | c :: r =>
+    if c = c%'<' ∧ (r.take 3 = [c%'!', c%'-', c%'-'] ∨ (r.head? = some c%'/' ∧ 7 ≤ r.length ∧ foldScript6 ((r.drop 1).take 6))) then
+      c :: BSL :: escEnds r
+    else c :: escEnds r
+
 def repF (q : Nat) : Nat → Bool → List Nat → List Nat
   | _, _, [] => []
   | 0, _, _ :: _ => []
@@ -258,10 +276,10 @@ def minifyString (allowTemplate : Bool) (s : List Nat) : List Nat :=
   if s.length < 3 then [c%'"', c%'"'] else
   let body := (s.drop 1).dropLast
   let q := chooseQuote allowTemplate body
-  q :: rep q body ++ [q]
+  q :: escEnds (rep q body) ++ [q]
 
 /-- `replaceEscapes(tail, '`', 1, 1)` on a template literal without substitutions (`s` with its backticks) -/
 def templateLit (s : List Nat) : List Nat :=
-  if s.length < 2 then s else BT :: rep BT ((s.drop 1).dropLast) ++ [BT]
+  if s.length < 2 then s else BT :: escEnds (rep BT ((s.drop 1).dropLast)) ++ [BT]
 
 end Verif.Model.JsString
